@@ -376,8 +376,12 @@ def coercion_atoms(fn: ast.AST) -> dict[str, bool]:
     body = ob.body if ob is not None else []
     atoms["object.not-an-object"] = _has(body, lambda n: isinstance(n, ast.If) and isinstance(n.test, ast.UnaryOp)
                                          and isinstance(n.test.op, ast.Not) and "isinstance(" in unparse(n.test))
+    # `name not in field_defs` -> report, or `if name in field_defs: ... else: report`
     atoms["object.unknown-field"] = _has(body, lambda n: isinstance(n, ast.Compare) and isinstance(n.ops[0], ast.NotIn)
-                                         and unparse(n.comparators[0]) in ("fields", "field_defs"))
+                                         and unparse(n.comparators[0]) in ("fields", "field_defs")) or _has(
+        body, lambda n: isinstance(n, ast.If) and isinstance(n.test, ast.Compare) and isinstance(n.test.ops[0], ast.In)
+        and unparse(n.test.comparators[0]) in ("fields", "field_defs") and bool(n.orelse)
+        and any(isinstance(x, (ast.Call, ast.Return)) for s_ in n.orelse for x in ast.walk(s_)))
     atoms["object.required-field"] = _has(body, lambda n: isinstance(n, ast.Call) and call_name(n) == "is_required_input_field")
     atoms["object.default-applied"] = _has(body, lambda n: isinstance(n, ast.Call) and call_name(n) == "coerce_default_value")
     atoms["object.recurse"] = _has(body, recursion)
@@ -387,7 +391,8 @@ def coercion_atoms(fn: ast.AST) -> dict[str, bool]:
             isinstance(n.test, ast.BoolOp) and isinstance(n.test.op, ast.And) and any(unparse(v) == "type_.is_one_of" for v in n.test.values)))]
     atoms["oneof.branch"] = bool(one_ofs)
     ob_body = [s for o in one_ofs for s in o.body] + [o.test for o in one_ofs]
-    atoms["oneof.count-is-one"] = _has(ob_body, lambda n: isinstance(n, ast.Compare) and isinstance(n.ops[0], ast.NotEq)
+    # `len(keys) != 1` -> reject, or the positive spelling `len(keys) == 1` held in a flag that is then negated
+    atoms["oneof.count-is-one"] = _has(ob_body, lambda n: isinstance(n, ast.Compare) and isinstance(n.ops[0], (ast.NotEq, ast.Eq))
                                        and unparse(n.comparators[0]) == "1" and "len(" in unparse(n.left))
     atoms["oneof.null-rejected"] = _has(ob_body, is_null_test)
     tries = [n for n in walk_body(fn) if isinstance(n, ast.Try) and _has(n.body, lambda c: isinstance(c, ast.Call) and last_attr(c) in (
@@ -1053,7 +1058,7 @@ def enum_direction(check: Check, repo: Repo, rule: str = "ENUM-DIRECTION") -> No
 
 
 def str_verbatim(check: Check, repo: Repo, rule: str = "STR-VERBATIM") -> None:
-    from rules.language_rules import norm_facts
+    from rules.language_rules import norm_facts, pattern_facts
 
     check.rule(
         rule,
@@ -1077,7 +1082,7 @@ def str_verbatim(check: Check, repo: Repo, rule: str = "STR-VERBATIM") -> None:
             for x in walk_body(fn):
                 if not isinstance(x, (ast.Return, ast.Raise)):
                     continue
-                if key not in norm_facts(flow.facts_at(x)):
+                if key not in (norm_facts(flow.facts_at(x)) | pattern_facts(x)):
                     continue
                 seen = True
                 n += 1
